@@ -243,6 +243,11 @@ func evalComparableInfixExpression(operator string, left, right Object) Object {
 		return evalNullInfixExpression(operator, left, right)
 	}
 
+	if left.Type() != right.Type() {
+		// operands of different types are never equal and never ordered
+		return nativeBoolToBooleanObject(operator == "<>")
+	}
+
 	switch left.Type() {
 	case ObjectTypeNumber:
 		return evalNumberInfixExpression(operator, left, right)
